@@ -5,10 +5,17 @@ ID = "C10"
 
 PROP = {'lean_props': ['Comrak.Props.C10'],
  'lean_audit': ['Comrak.Audit.C10'],
- 'required_theorems': ['enter_leaves_opened', 'exit_closes_closing', 'html_balanced', 'html_balanced_of_shape'],
- 'strength': 'full at token level for every tree with balShapeT (implied by Shape); byte level by the lexer oracle on real output',
- 'trusted_base': ['token spelling: K compares spell(renderToks) with the real bytes; the step from token balance to byte balance (lexHtml o spell) '
-                  'is checked by running the byte-level oracle on the real output, not proved'],
+ 'required_theorems': ['enter_leaves_opened', 'exit_closes_closing', 'html_balanced', 'html_balanced_of_shape',
+                       'lex_spell', 'html_void_discipline', 'balanced_tokens_balanced_bytes', 'html_balanced_bytes_partial',
+                       'balancedBytes_imp_core', 'html_footnote_section_once_bytes'],
+ 'strength': 'full at token level for every tree with balShapeT (implied by Shape), all options; at byte level proved in safe mode '
+             '(unsafe_ = false) for the core of the oracle (lexes completely, tag stack balanced, void elements self-closed and only they) '
+             'and for its footnote-section-once clause; the thead/tbody-once-under-table clause of the oracle only by running it on real output',
+ 'trusted_base': ['token spelling: K compares spell(renderToks) with the real bytes; the step from token balance to byte balance is proved '
+                  '(lex_spell: lexHtml (spell ts) = some (toL ts) for allowed tokens; html_balanced_bytes_partial) for safe mode and the core '
+                  'oracle balancedBytesCore plus the footnote-section-once clause (html_footnote_section_once_bytes); with unsafe_ = true '
+                  '(raw HTML passed through) and for the thead/tbody-once-under-table clause of balancedBytes it is checked by running the '
+                  'oracle on the real output, not proved'],
  'assumptions': ['plugins and URL rewriters are outside the model',
                  "that every parsed tree satisfies balShapeT is checked on every parsed tree of the run (it is C04's subject)"]}
 
@@ -17,9 +24,13 @@ TEXT = {'text': "Proof. html.rs's format_node_default is modelled completely at 
          'whose footnote definitions sit under the document or another definition (balShapeT, implied by Shape), that the emitted tag events are '
          'balanced and nothing is left open (html_balanced), via per-node pairing lemmas for all kinds. The model is tied to the code by '
          'byte-equality of real format_html output with the spelled model tokens on generated documents x random option vectors on every run; the '
-         'byte-level tag-stack oracle (Lean lexer + stack machine, incl. thead/tbody/footnote-section once) is also run on the real output.',
+         'byte-level tag-stack oracle (Lean lexer + stack machine, incl. thead/tbody/footnote-section once) is also run on the real output. '
+         'Token level and byte level are connected in Lean: the byte lexer provably inverts the spelling of every allowed token list (lex_spell), '
+         'every start tag written is non-void and every self-closed tag void (html_void_discipline), hence for unsafe_ = false the rendered '
+         'bytes pass the core of the oracle (html_balanced_bytes_partial; balancedBytes_imp_core shows the core is the oracle minus the '
+         'section-once clauses) and contain the footnote section start tag at most once (html_footnote_section_once_bytes).',
  'note': 'Trusted: Lean kernel + standard axioms; harness/driver; recursive traversal stands for the explicit work stack; token-to-byte lexing step '
-         'is exercised, not proved; balShapeT of parsed trees is checked per run, proved nowhere (C04).',
+         'is proved for safe mode, the core oracle and footnote-section-once (thead/tbody-once clause and unsafe mode: exercised only); balShapeT of parsed trees is checked per run, proved nowhere (C04).',
  'technique': 'Lean 4 theorem by mutual structural induction over Tree/Forest with per-kind pairing lemmas + differential correspondence (byte-equal '
               'HTML) + lexer/stack oracle on real output',
  'design_ref': 'DESIGN.md section 7, C10'}
